@@ -181,7 +181,7 @@ def run_gofacts():
     """(re)build the translator and regenerate coq/Gen_*.v from REPO (files are rewritten only when they change)"""
     binp = os.path.join(VERIF, "bin", "gofacts")
     src = os.path.join(VERIF, "harness", "gofacts")
-    if not os.path.exists(binp) or os.path.getmtime(os.path.join(src, "main.go")) > os.path.getmtime(binp):
+    if not os.path.exists(binp) or any(os.path.getmtime(os.path.join(src, f)) > os.path.getmtime(binp) for f in os.listdir(src) if f.endswith(".go") or f == "go.mod"):
         os.makedirs(os.path.dirname(binp), exist_ok=True)
         rc, out = sh(["go", "build", "-o", binp, "."], cwd=src, env=GOENV, timeout=600)
         if rc != 0:
